@@ -23,11 +23,23 @@ var (
 	// outDir: where evidence/ and replays/ go; VERIF_OUT redirects them when the
 	// checks are pointed at a mutated scratch worktree (VERIF_REPO) so that the
 	// committed evidence is only ever written by runs against /repo itself
-	outDir   = envOr("VERIF_OUT", envOr("VERIF_DIR", "/verif"))
-	verifDir = envOr("VERIF_DIR", "/verif")
+	outDir   = envOr("VERIF_OUT", envOr("VERIF_DIR", exeRoot()))
+	verifDir = envOr("VERIF_DIR", exeRoot())
 	repoDir  = envOr("VERIF_REPO", "/repo")
 	modCache = envOr("GOMODCACHE", "/root/go/pkg/mod")
 )
+
+// exeRoot: the driver lives in <verif>/bin/driver; everything it reads
+// (worker sources, overlays, simrt, known findings) comes from that tree, so a
+// snapshot of /verif is self-contained.
+func exeRoot() string {
+	if exe, err := os.Executable(); err == nil {
+		if real, err := filepath.EvalSymlinks(exe); err == nil {
+			return filepath.Dir(filepath.Dir(real))
+		}
+	}
+	return "/verif"
+}
 
 func envOr(k, d string) string {
 	if v := os.Getenv(k); v != "" {
